@@ -306,7 +306,7 @@ static REGISTRY: Mutex<BTreeMap<usize, Arc<GateSched>>> = Mutex::new(BTreeMap::n
 
 /// Source of scheduler picks.
 pub enum PickSource {
-    Rng(ChaCha8Rng),
+    Rng(crate::kit::SimRng),
     /// Explicit picks (replay of a minimised schedule); 0 once exhausted.
     Tape(Vec<u32>, usize),
 }
@@ -353,7 +353,7 @@ impl Sched {
             }),
             policy: Cell::new(policy),
             step_limit_hit: Cell::new(false),
-            src: RefCell::new(PickSource::Rng(ChaCha8Rng::seed_from_u64(seed ^ 0x5ced))),
+            src: RefCell::new(PickSource::Rng(crate::kit::SimRng::new(ChaCha8Rng::seed_from_u64(seed ^ 0x5ced), "sched"))),
         }
     }
 
